@@ -321,6 +321,8 @@ func (tx *FnTx) typeInv(t Term, gt types.Type, alloc string, depth int) string {
 		case types.Int32:
 			return sand("(<= (- 2147483648) "+t.S+")", "(<= "+t.S+" 2147483647)")
 		}
+	case *types.Interface:
+		return "(=> (= (i-typ " + t.S + ") 0) (= (i-val " + t.S + ") 0))"
 	case *types.Slice:
 		return sand("(wfslice "+t.S+")", "(< (s-obj "+t.S+") "+alloc+")")
 	case *types.Pointer, *types.Map, *types.Chan:
@@ -808,6 +810,19 @@ func (tx *FnTx) run() (err error) {
 		if pt, ok := fv.Type().Underlying().(*types.Pointer); ok {
 			tx.recordFnVal(fv.Name(), pt.Elem())
 		}
+	}
+	// captures start as the zero value (no matching call yet)
+	if tx.c != nil {
+		for _, cp := range tx.c.Captures {
+			z := map[string]string{"Iface": "(mk-iface 0 0)", "Int": "0", "Bool": "false", "Slice": "(mk-slice 0 0 0 0)", "Real": "0.0"}[cp.Sort]
+			st.ghost["cap!"+cp.Name] = Term{S: z, Sort: cp.Sort}
+		}
+	}
+	// private captured cells also need an address value (they may be passed to sync/atomic)
+	for fv := range tx.privFV {
+		n := "fvaddr_" + sanitize(fv.Name())
+		tx.d.declConst(n, "Int")
+		tx.vals[fv] = Term{S: n, Sort: "Int", GT: fv.Type()}
 	}
 	// lets and preconditions
 	env := tx.baseEnv(st, st)
